@@ -14,9 +14,21 @@
 
 namespace cnl {
     namespace _impl {
+#if defined(JOHNMCFARLANE_CNL_VERIF)
+        namespace verif {
+            // verification hook: called with the abort message before the process dies;
+            // a monitor may record it and unwind (siglongjmp) instead of returning
+            inline void (*abort_hook)(char const*) = nullptr;
+        }
+#endif
         template<class Result>
         [[noreturn]] constexpr auto abort(char const* message) noexcept -> Result
         {
+#if defined(JOHNMCFARLANE_CNL_VERIF)
+            if (verif::abort_hook) {
+                verif::abort_hook(message);
+            }
+#endif
             (void)std::fputs(message, stderr);
             (void)std::fputc('\n', stderr);
             std::abort();
